@@ -28,7 +28,8 @@ CHECKS = {
                   "`naunet init ... --render` runs with the written TOML and the constructor arguments of Network / TemplateLoader "
                   "captured and judged by Trace_ConfigRoundTrip.tla; rendered tree compared with the equivalent API rendering; summary table vs "
                   "generated headers; bundled examples -> configuration; TLA+ spec Project.tla (project directory over init / edit / render / "
-                  "patch / re-init) model-checked, TLC-simulated histories replayed through the real commands and validated by Trace_Project.tla",
+                  "patch / re-init / Network.export with and without overwrite) model-checked, TLC-simulated histories replayed through the real "
+                  "commands and API and validated by Trace_Project.tla",
         text="TLC checks RoundTripId for all option vectors with <= 2 tokens per option over the shapes plain / padded / inner blank / "
              "empty; every real run (four project kinds incl. binding energies, yields, shielding, rate and ODE modifiers, cooling, "
              "upper-case elements with replacement; three solver choices) must write exactly the normalised request into the TOML, hand "
@@ -129,11 +130,14 @@ CHECKS = {
         note="modifier-overridden reactions are judged by C13; temperatures scaled by 100; zero-initialisation observed textually"),
     "C13": dict(level="model_checking", design_ref="DESIGN.md §4 C13, §11, §12",
         technique="TLA+ specs Rates.tla (Override / re-index rule) and OdeGen.tla (Modifier action) model-checked with TLC; encoded "
-                  "networks with index maps and modifier sets rendered by the real code and judged by Trace_Rates.tla / Trace_OdeGen.tla",
+                  "networks with index maps and modifier sets rendered by the real code and judged by Trace_Rates.tla / Trace_OdeGen.tla; "
+                  "TLA+ spec ConfigRoundTrip.tla (rate_modifier / ode_modifier as table options) with the real init -> TOML -> render stages of "
+                  "the projects that carry modifiers judged by Trace_ConfigRoundTrip.tla",
         text="TLC checks OnlyTargetsChanged over all index maps (absent/present/shared/all -1) x key sets, and the modifier delta of the "
              "ODE accumulation; each emitted rate statement must be overridden iff its (re-)index is a key, with that key's text, and "
              "each ODE-modifier term must be + (factor) * prod(deps) on the named species with the exact derivative terms.",
-        note="the configuration-file path of the modifiers is covered by C20's check (numeric-zero modifier in Project.tla's description 3)"),
+        note="of the configuration round trip only the two modifier tables are charged to this property; the rest of it, and the numeric-zero "
+             "modifier of Project.tla's description 3, are C20's"),
     "C17": dict(level="model_checking", design_ref="DESIGN.md §4 C17, §11, §12",
         technique="TLA+ spec Globals.tla (installed-context model of the process-global tables) model-checked with TLC; TLC-simulated "
                   "interleavings of operations on two networks replayed each in one fresh Python process; every render compared with "
@@ -168,7 +172,8 @@ CHECKS = {
     "C14": dict(
         level="model_checking", design_ref="DESIGN.md §4 C14, §11",
         technique="TLA+ spec NetworkEdit.tla model-checked with TLC over all bounded edit histories; TLC-simulated histories replayed on real "
-                  "Network objects; recorded API histories (random, targeted, `naunet extend`) validated by Trace_NetworkEdit.tla; TLA+ spec "
+                  "Network objects; recorded API histories (random, targeted, `naunet extend`) validated by Trace_NetworkEdit.tla, each "
+                  "recorded state also carrying the real object's answers to where_species / where_reaction (specification queries); TLA+ spec "
                   "ExtendCmd.tla (the command's pipeline as a phase machine over NetworkEdit) model-checked for every input file and option "
                   "combination in the bound, real command runs (input file written by an independent encoder, output file read back by an "
                   "independent reader) validated by Trace_ExtendCmd.tla",
